@@ -119,7 +119,8 @@ func (eng *Engine) sharedInit(path string) bool {
 	switch path {
 	case "errors", "strconv", "unicode/utf8", "strings", "bytes", "internal/stringslite",
 		"path/filepath", "internal/filepathlite", "io/fs", "internal/oserror", "hash/fnv", "net/url", "sort", "io",
-		"math/bits", "slices", "cmp", "path", "hash", "unicode/utf16", "internal/itoa", "internal/byteorder":
+		"math/bits", "slices", "cmp", "path", "hash", "unicode/utf16", "internal/itoa", "internal/byteorder",
+		"unicode", "regexp/syntax", "regexp", "time":
 		return true
 	}
 	return false
@@ -151,6 +152,7 @@ func init() {
 		"internal/bytealg.CountString":     inCountByte,
 		"bytes.Equal":                      inBytesEqual,
 		"internal/bytealg.Equal":           inBytesEqual,
+		"time.runtimeNano": func(ex *Exec, fr *frame, args []Val) Val { return Const(64, 1) },
 		"internal/bytealg.MakeNoZero": func(ex *Exec, fr *frame, args []Val) Val {
 			n := ex.concreteInt(args[0], "MakeNoZero")
 			cells := make([]Val, n)
@@ -594,6 +596,25 @@ func (ex *Exec) sprintf(fr *frame, format Str, args []Val) Str {
 			}
 			if verb == 'q' || verb == 'd' || verb == 'c' || verb == 'x' {
 				if itf, ok := a.(Iface); ok && itf.T != nil {
+					// fmt.handleMethods: for the verbs valid for strings (%s %q %v %x %X) an operand that is an
+					// error or a Stringer is formatted through its method, whatever its underlying kind
+					if verb == 'q' || verb == 'x' {
+						var txt Str
+						has := false
+						if m := ex.eng.lookupMethod(itf.T, nil, "Error"); m != nil && isErrorMethod(m) {
+							txt, has = ex.call(fr, m, []Val{itf.V}).(Str), true
+						} else if m := ex.eng.lookupMethod(itf.T, nil, "String"); m != nil && isStringMethod(m) {
+							txt, has = ex.call(fr, m, []Val{itf.V}).(Str), true
+						}
+						if has {
+							if verb == 'q' {
+								out = append(out, quoteStr(txt)...)
+							} else {
+								out = append(out, ex.formatTyped(fr, types.Typ[types.String], txt, 'x')...)
+							}
+							continue
+						}
+					}
 					// %q on an error/Stringer quotes its text
 					if verb == 'q' {
 						if _, isStr := itf.V.(Str); !isStr {
@@ -610,6 +631,27 @@ func (ex *Exec) sprintf(fr *frame, format Str, args []Val) Str {
 				}
 			}
 			out = append(out, ex.formatValue(fr, a, verb)...)
+		case 'p':
+			// an address: unique per object within a run (the native value is arbitrary; code may only rely on
+			// distinct objects printing differently and one object printing the same every time)
+			var key interface{} = a
+			if itf, ok := a.(Iface); ok {
+				key = itf.V
+			}
+			switch key.(type) {
+			case *Val, *MapV:
+			default:
+				panic(inconclusive{"Sprintf %p of a non-pointer value"})
+			}
+			if ex.ptrIDs == nil {
+				ex.ptrIDs = map[interface{}]int{}
+			}
+			id, ok := ex.ptrIDs[key]
+			if !ok {
+				id = len(ex.ptrIDs) + 1
+				ex.ptrIDs[key] = id
+			}
+			out = append(out, mkStr(fmt.Sprintf("0xc%09x", id*16))...)
 		default:
 			panic(inconclusive{"Sprintf verb %" + string(verb) + " unsupported"})
 		}
